@@ -388,11 +388,38 @@ func c08Keyspace(ctx *Ctx) {
 	}
 }
 
+// c08PayloadAcrossVersions: the statement is prepared WITH a custom payload by a client of one version and executed by
+// clients of the others after every host has forgotten it: the proxy re-prepares it from the cached frame on connections
+// of each of those versions, of which version 3 cannot carry a payload.
+func c08PayloadAcrossVersions(ctx *Ctx) {
+	hs := []int{1, 2, 3}
+	e := newC08Env(ctx, hs, hs, nil)
+	defer e.close()
+	e.addClient(4, "")
+	preparers := []int{e.addClient(4, ""), e.addClient(5, "lz4"), e.addClient(66, "")}
+	executors := []int{e.addClient(3, ""), e.addClient(4, "snappy"), e.addClient(5, ""), e.addClient(3, "lz4")}
+	e.calibrate()
+	for i, ci := range preparers {
+		q := c08Stmts[i]
+		e.payloadNext = true
+		if !e.prepare(ci, q) {
+			continue
+		}
+		for _, xi := range executors {
+			for _, h := range hs {
+				e.be.Forget(h)
+			}
+			e.execute(xi, q, xi == executors[1], "execute:prepared-with-a-custom-payload-by-a-client-of-another-version")
+		}
+	}
+}
+
 func genC08(ctx *Ctx) {
 	r := ctx.Rng
 	c08Saturated(ctx)
 	c08Keyspace(ctx)
 	c08SlowCache(ctx)
+	c08PayloadAcrossVersions(ctx)
 	late := make(chan func(), 1)
 	go func() { late <- c08LateHost(ctx) }()
 
